@@ -211,10 +211,19 @@ func (st *c02State) scanAll(scan func() bool, result func() Record, want []*refR
 
 var c02Tmp string
 
+func c02NoPanic(r *sim.Run, what string, f func()) {
+	defer func() {
+		if p := recover(); p != nil {
+			r.Fail("termination", "reader/panic", "%s panicked: %v", what, p)
+		}
+	}()
+	f()
+}
+
 func c02LaneReader(t *testing.T, r *sim.Run) {
 	T := r.T
 	st := &c02State{r: r, lane: "reader", seenStr: map[string]bool{}}
-	var rd Reader
+	rd := new(Reader)
 	ref := &refParser{}
 	nfiles := 1 + T.Intn(5, "nfiles")
 	opts := genTextOpts{}
@@ -311,7 +320,15 @@ func c02LaneReader(t *testing.T, r *sim.Run) {
 			}
 		}
 		r.Logf("file %s labels=%v chunk=%d quirks=%v errAt=%d cutAt=%d text=%s", fname, init, src.MaxChunk, src.Quirks, src.ErrAt, src.CutAt, quoteOut(text))
-		rd.Reset(src, fname, init...)
+		given := fname
+		if T.Intn(12, "unnamed-file") == 0 {
+			given, fname = "", "<unknown>" // the documented stand-in in positions
+		}
+		if f == 0 && len(init) == 0 && T.Bool("constructor") {
+			rd = NewReader(src, given)
+		} else {
+			rd.Reset(src, given, init...)
+		}
 		// snapshot of the unit table: a file abandoned midway still contributes the metadata it delivered
 		want := ref.parseFile(fname, delivered)
 		// bufio.Scanner's contract: a line of bufio.MaxScanTokenSize bytes or more may end the file with
@@ -335,7 +352,14 @@ func c02LaneReader(t *testing.T, r *sim.Run) {
 			stopAfter = T.Intn(len(want), "abandon-at")
 			r.Hit("file abandoned midway then Reset")
 		}
+		if T.Intn(6, "result-before-scan") == 0 {
+			// Result before the first Scan of a file: whatever it returns, it is not a panic
+			c02NoPanic(r, "Result() right after Reset", func() { rd.Result() })
+		}
 		n := st.scanAll(rd.Scan, rd.Result, want, len(text)+10, fname, stopAfter)
+		if T.Intn(4, "result-after-scan") == 0 {
+			c02NoPanic(r, "Result() after the records ran out or the file was left", func() { rd.Result() })
+		}
 		if stopAfter >= 0 {
 			// abandoned: the reference's unit table must forget metadata from records not consumed
 			// (metadata is registered when the line is parsed; lines parsed are those up to the last consumed record's line,
